@@ -89,9 +89,38 @@ def run(ck):
             verdict = it_ok
             how = how if it_ok else 'calls as_public_input but does not constrain the returned cells'
         elif constr and not own_as:
+            # as_public_input that does real work (normalisation, packing ...) must be the source of the constrained cells;
+            # only a pure projection (no workspace call) may be mirrored field by field, and a delegation must pass the whole value on
+            a_work = [callee(x) or '' for x in hirq.calls(a['body']) if (callee(x) or '').startswith(('midnight_', '<midnight_'))
+                      and not (callee(x) or '').endswith(('::clone', '::into', '::from'))]
+            param_locals = {b['i'] for p_ in c['params'] for b in pat_bindings(p_)}
+            whole = any(peel(arg).get('k') == 'local' and peel(arg)['i'] in param_locals and 'Layouter' not in (peel(arg).get('t') or '')
+                        for x in constr for arg in x.get('args', [])) or \
+                any(peel(arg).get('k') in ('mcall', 'call') and hirq.locals_used(arg) & param_locals and not hirq.field_reads(arg)
+                    for x in constr for arg in x.get('args', []))
             same = afields <= cfields if afields else True
-            verdict, how = same, ('delegates to another constrain_as_public_input over the same fields' if same else
-                                  f'constrains fields {sorted(cfields)} but as_public_input encodes {sorted(afields)}')
+            # field-wise delegation: the fields whose own *_as_public_input encoder is called are exactly the fields whose own
+            # constrain_as_public_input is called
+            def recv_fields(fn_, pred):
+                out = set()
+                for x in hirq.calls(fn_['body']):
+                    if pred(callee(x) or '') and 'recv' in x:
+                        r = peel(x['recv'])
+                        if r.get('k') == 'field':
+                            out.add(r['n'])
+                return out
+            enc_f = recv_fields(a, lambda cc: cc.endswith('as_public_input'))
+            con_f = recv_fields(c, lambda cc: cc.endswith('::constrain_as_public_input'))
+            if enc_f and enc_f == con_f:
+                whole = True
+            if whole:
+                verdict, how = True, 'delegates the whole value (or each field to its own type) to another constrain_as_public_input'
+            elif not a_work and same:
+                verdict, how = True, 'as_public_input is a pure projection; the same fields are constrained one by one'
+            else:
+                verdict = False
+                how = (f'constrains {sorted(cfields)} directly while as_public_input computes the encoding through {[short(x) for x in a_work][:3]}: '
+                       f'the constrained cells are not the encoded ones')
         else:
             helper = [cc for cc, _, _ in ccalls if 'public_input' in cc]
             same = bool(helper) and afields <= cfields
@@ -106,6 +135,13 @@ def run(ck):
         ok = (s_assign and s_constr) or bool(s_deleg) or s_div
         how = 'assign + constrain_as_public_input' if (s_assign and s_constr) else 'delegation' if s_deleg else 'explicitly unsupported' if s_div else 'neither assign+constrain nor delegation'
         ck.record('C08.R2', f'{tag}:assign', ok, how, f'{s["_nid"]}: {how}', hirq.fn_loc(s))
+    # helper pair used by the accumulator impl: encoder and constrainer of AssignedMsm cover the same fields
+    M = 'midnight_circuits::verifier::msm::AssignedMsm::'
+    ea, ca = w.fn(M + 'in_circuit_as_public_input'), w.fn(M + 'constrain_as_public_input')
+    fa = {fl for ad, fl in hirq.field_reads(ea['body']) if (ad or '').endswith('AssignedMsm')}
+    fc = {fl for ad, fl in hirq.field_reads(ca['body']) if (ad or '').endswith('AssignedMsm')}
+    ck.record('C08.R2', 'AssignedMsm:encoder~constrainer', bool(fa) and fa == fc, f'both cover {sorted(fa)}',
+              f'AssignedMsm::in_circuit_as_public_input encodes {sorted(fa)} but constrain_as_public_input constrains {sorted(fc)}', hirq.fn_loc(ca))
     r3_counting(ck, w)
 
 
